@@ -13,8 +13,9 @@ Definition XP3 : N := 0x165667B19E3779F9.
 Definition XP4 : N := 0x85EBCA77C2B2AE63.
 Definition XP5 : N := 0x27D4EB2F165667C5.
 
-Definition m64 (x : N) : N := x mod M64.
-Definition rotl (x r : N) : N := m64 (x * 2 ^ r) + x / 2 ^ (64 - r).
+Definition MASK64 : N := 0xFFFFFFFFFFFFFFFF.
+Definition m64 (x : N) : N := N.land x MASK64.                     (* x mod 2^64 *)
+Definition rotl (x r : N) : N := N.lor (m64 (N.shiftl x r)) (N.shiftr x (64 - r)).
 Definition xround (acc input : N) : N := m64 (rotl (m64 (acc + m64 (input * XP2))) 31 * XP1).
 Definition xmerge (acc val : N) : N := m64 (m64 (N.lxor acc (xround 0 val) * XP1) + XP4).
 
@@ -57,11 +58,11 @@ Fixpoint xfin1 (l : list N) (h : N) : N :=
   end.
 
 Definition xavalanche (h : N) : N :=
-  let h := N.lxor h (h / 2 ^ 33) in
+  let h := N.lxor h (N.shiftr h 33) in
   let h := m64 (h * XP2) in
-  let h := N.lxor h (h / 2 ^ 29) in
+  let h := N.lxor h (N.shiftr h 29) in
   let h := m64 (h * XP3) in
-  N.lxor h (h / 2 ^ 32).
+  N.lxor h (N.shiftr h 32).
 
 Definition xxh64 (l : list N) : N :=
   let n := N.of_nat (length l) in
